@@ -264,6 +264,106 @@ func drawN(t *rapid.T, maxN int) int {
 	return n
 }
 
+// ---------------------------------------------------------------------------
+// Batch sizes of the base OTs (CO, its helper functions, RSA).  They have no
+// 512-row chunks; what matters is a sub-batch / buffer boundary anywhere in
+// the usual power-of-two range, so sizes on both sides of 128, 256, 512 and
+// 1024 must occur, also as a later batch on an initialised instance.
+
+// baseBoundaryN: both sides of 128, 256, 512, 1024 and one size well inside
+// the 257..511 range.
+var baseBoundaryN = []int{127, 128, 129, 255, 256, 257, 300, 511, 512, 513,
+	1023, 1024, 1025}
+
+var baseSmallN = []int{1, 2, 3, 7, 8, 9, 15, 16, 17, 31, 32, 33, 63, 64, 65}
+
+// drawBaseN draws a batch size for a base OT.  With probability
+// (100-pLarge)% it is a small size in 1..small (uniform or from
+// baseSmallN), else a size up to large: uniform in 1..large or an entry of
+// baseBoundaryN that is <= large.  The small modes have the low mode values
+// so a failing large batch shrinks towards the smallest failing size.
+func drawBaseN(t *rapid.T, small, large, pLarge int) int {
+	mode := rapid.IntRange(0, 99).Draw(t, "nmode")
+	if large <= small {
+		pLarge = 0
+	}
+	switch {
+	case mode < 100-pLarge:
+		if mode%2 == 0 {
+			return rapid.IntRange(1, small).Draw(t, "n")
+		}
+		k := 0
+		for k < len(baseSmallN) && baseSmallN[k] <= small {
+			k++
+		}
+		return baseSmallN[rapid.IntRange(0, k-1).Draw(t, "nidx")]
+	case mode < 100-pLarge/2:
+		return rapid.IntRange(1, large).Draw(t, "nlarge")
+	default:
+		k := 0
+		for k < len(baseBoundaryN) && baseBoundaryN[k] <= large {
+			k++
+		}
+		if k == 0 {
+			return rapid.IntRange(1, large).Draw(t, "nlarge")
+		}
+		return baseBoundaryN[rapid.IntRange(0, k-1).Draw(t, "nbidx")]
+	}
+}
+
+// baseSizeClasses names the size range of a base-OT batch and, when n is
+// within 1 of 128/256/512/1024, the boundary and the side.
+func baseSizeClasses(n int) []string {
+	var cl []string
+	switch {
+	case n <= 128:
+		cl = append(cl, "n<=128")
+	case n <= 256:
+		cl = append(cl, "n=129..256")
+	case n <= 512:
+		cl = append(cl, "n=257..512")
+	case n <= 1024:
+		cl = append(cl, "n=513..1024")
+	default:
+		cl = append(cl, "n>1024")
+	}
+	if n > 256 {
+		cl = append(cl, "n>256")
+	}
+	if n > 512 {
+		cl = append(cl, "n>512")
+	}
+	for _, b := range []int{128, 256, 512, 1024} {
+		switch n - b {
+		case -1:
+			cl = append(cl, fmt.Sprintf("n=%d-1", b))
+		case 0:
+			cl = append(cl, fmt.Sprintf("n=%d", b))
+		case 1:
+			cl = append(cl, fmt.Sprintf("n=%d+1", b))
+		}
+	}
+	return cl
+}
+
+// baseSeqClasses describes a sequence of base-OT batch sizes on one
+// instance: a later batch that is large, and a batch after a large one.
+func baseSeqClasses(ns []int) []string {
+	var cl []string
+	for i, n := range ns {
+		if i > 0 && n > 256 {
+			cl = append(cl, "multi-batch-with-large")
+		}
+		if i > 0 && n > 512 {
+			cl = append(cl, "multi-batch-with-large>512")
+		}
+		if i > 0 && ns[i-1] > 256 {
+			cl = append(cl, "batch-after-large")
+		}
+	}
+	return cl
+}
+
 func sizeClasses(n int) []string {
 	var cl []string
 	if n%8 != 0 {
